@@ -422,7 +422,12 @@ fn c15_for<S: Sc>(ctx: &Ctx, subs: &mut Vec<Sub>) {
             }
         }
         let timeout = if S::KIND == Kind::Polling && HAVE_CLOCK { 1 } else { 0 };
-        let cap_states = if S::KIND == Kind::Polling { ctx.pick(3_000usize, 8_000, 300_000) } else { 200_000 };
+        // (real sizes: ~25 product states per pair for the 14-bit CC scanner, ~2000 for the (N)RPN scanner)
+        let cap_states = match S::KIND {
+            Kind::Polling => ctx.pick(3_000usize, 8_000, 300_000),
+            Kind::Cc14 => 4_000,
+            Kind::Nrpn => 40_000,
+        };
         let mut sub = Sub::new(
             &format!("{}_two_channel_products", S::NAME),
             &format!("{} scanner: for {} ordered channel pairs (i, j), BFS over all histories on the two channels (abstract alphabet, values {{0,1}}, reset{}) comparing the two-channel scanner with one scanner per channel; pruning on the three scanner states; state cap {}", S::NAME, pairs.len(), if S::KIND == Kind::Polling { ", polls, time step = timeout 1 ns" } else { "" }, cap_states),
